@@ -14,25 +14,25 @@ import subprocess
 import time
 
 STEP_CAP = 2000
-STALL_S = 20.0
-BLOCKED_S = 1.5      # a released party that neither parks nor exits for this long is waiting for a lock
-THREAD_QUIET_S = 1.0  # a released helper thread that does not come back for this long has finished
+STALL_S = 30.0
+BLOCKED_S = 4.0      # FALLBACK only: a released activity that neither parks, ends nor exits for this long is taken to be
+                     # blocked on something the controller cannot see (exact accounting below makes this rare)
 
 
 class Party:
     def __init__(self, label, proc):
         self.label = label
         self.proc = proc
-        self.conn = None        # pending (parked) connection
-        self.req = None
-        self.running = True     # released / not yet parked
+        self.parked = []        # [(conn, req, arrival step)]: every parked request of this process (main or helper thread)
+        self.running = 1        # activities (threads) of this process that are released and have not parked / ended yet
+        self.alive_threads = 0  # helper threads announced by `thread_spawn` and not yet ended
+        self.joiners = 0        # activities blocked in a join (announced by `join`)
+        self.blocked = False    # fallback: running count ignored until there is news from this process
+        self.t_news = time.time()
         self.exited = False
         self.code = None
         self.out = b""
         self.err = b""
-        self.extra = []         # parked requests of further threads of the same process: [(conn, req)]
-        self.thread_inflight = 0   # released helper-thread requests that have not come back yet
-        self.t_thread = 0.0
 
 
 def point_name(req):
@@ -43,10 +43,19 @@ def point_name(req):
     return "git:" + (" ".join(words) if words else "?") + (":proxied" if req.get("proxied") else "")
 
 
+def _strip(name):
+    return name[:-7] if name.endswith("@thread") else name
+
+
 def run_concurrent(world, commands, rng=None, choices=None, policy="random", faults=None, hold=None):
     """commands: [(label, argv, cwd, extra_env)].  Returns dict(results, schedule, steps, stalled).
     `choices`: recorded schedule [[label, point], ...] to replay; missing/invalid choices fall back
-    to the first parked party (recorded as such)."""
+    to the first parked request (recorded as such).
+
+    Accounting is exact, not timed: a process starts with one running activity; `thread_spawn` (sent by the spawner
+    before the thread exists) adds one, every parked request and every `thread_end` removes one, `join` moves the
+    caller to a waiting state until the helper ends, a contended journal lock is waited for at the point `lock.wait`.
+    A decision is taken only when no activity of any process is running."""
     sock_path = os.path.join(world.root, "ctl.sock")
     try:
         os.remove(sock_path)
@@ -74,19 +83,26 @@ def run_concurrent(world, commands, rng=None, choices=None, policy="random", fau
         prio = {l: i for i, l in enumerate(labels)}
         change_points = {rng.randint(1, 60) for _ in range(rng.randint(0, 3))}
     pending_raw = {}   # conn -> buffer
+    stats = {"thread_spawn": 0}
 
     def reap():
         for pt in parties.values():
             if not pt.exited and pt.proc.poll() is not None:
-                # drain
                 try:
                     o, e = pt.proc.communicate(timeout=5)
                 except Exception:
                     o, e = b"", b""
                 pt.out, pt.err = o or b"", e or b""
                 pt.exited = True
-                pt.running = False
+                pt.running = 0
                 pt.code = pt.proc.returncode
+
+    def ack(s):
+        try:
+            s.sendall(b"go\n")
+        except OSError:
+            pass
+        s.close()
 
     def accept_all(timeout):
         r, _, _ = select.select([srv] + list(pending_raw), [], [], timeout)
@@ -98,42 +114,50 @@ def run_concurrent(world, commands, rng=None, choices=None, policy="random", fau
                     pending_raw[c] = b""
                 except OSError:
                     pass
-            else:
-                try:
-                    data = s.recv(65536)
-                except OSError:
-                    data = b""
-                if not data:
-                    pending_raw.pop(s, None)
-                    s.close()
-                    continue
-                pending_raw[s] += data
-                if b"\n" in pending_raw[s]:
-                    line = pending_raw.pop(s).split(b"\n")[0]
-                    try:
-                        req = json.loads(line.decode("utf-8", "replace"))
-                    except ValueError:
-                        req = {"k": "bad", "label": ""}
-                    pt = parties.get(req.get("label"))
-                    if pt is None or req.get("k") == "probe":
-                        try:
-                            s.sendall(b"go\n")
-                        except OSError:
-                            pass
-                        s.close()
-                    elif pt.conn is not None:
-                        # another thread of the same process (e.g. the notes sync beside the user's fetch / push):
-                        # parked as well and scheduled like a party of its own
-                        pt.extra.append((s, req))
-                        if pt.thread_inflight > 0:
-                            pt.thread_inflight -= 1
-                    elif pt.thread_inflight > 0 and not pt.running:
-                        # the helper thread that was released last comes back with its next call
-                        pt.extra.append((s, req))
-                        pt.thread_inflight -= 1
-                    else:
-                        pt.conn, pt.req, pt.running = s, req, False
-                        pt.blocked = False
+                continue
+            try:
+                data = s.recv(65536)
+            except OSError:
+                data = b""
+            if not data:
+                pending_raw.pop(s, None)
+                s.close()
+                continue
+            pending_raw[s] += data
+            if b"\n" not in pending_raw[s]:
+                continue
+            line = pending_raw.pop(s).split(b"\n")[0]
+            try:
+                req = json.loads(line.decode("utf-8", "replace"))
+            except ValueError:
+                req = {"k": "bad", "label": ""}
+            pt = parties.get(req.get("label"))
+            k = req.get("k")
+            if pt is None or k in ("probe", "bad"):
+                ack(s)
+                continue
+            pt.t_news = time.time()
+            pt.blocked = False
+            if k == "notice":
+                what = req.get("what")
+                if what == "thread_spawn":
+                    stats["thread_spawn"] += 1
+                    pt.running += 1
+                    pt.alive_threads += 1
+                elif what == "thread_end":
+                    pt.running = max(0, pt.running - 1)
+                    pt.alive_threads = max(0, pt.alive_threads - 1)
+                    if pt.alive_threads == 0 and pt.joiners:
+                        pt.running += pt.joiners
+                        pt.joiners = 0
+                elif what == "join":
+                    if pt.alive_threads > 0:
+                        pt.running = max(0, pt.running - 1)
+                        pt.joiners += 1
+                ack(s)
+                continue
+            pt.parked.append((s, req, steps))
+            pt.running = max(0, pt.running - 1)
 
     t_last = time.time()
     ci = 0
@@ -142,90 +166,86 @@ def run_concurrent(world, commands, rng=None, choices=None, policy="random", fau
         live = [pt for pt in parties.values() if not pt.exited]
         if not live:
             break
-        for pt in live:
-            # a released helper thread that stays silent while its process has other parked requests has finished
-            if pt.thread_inflight > 0 and time.time() - pt.t_thread > THREAD_QUIET_S and (pt.conn is not None or pt.extra):
-                pt.thread_inflight = 0
-        if any(pt.thread_inflight > 0 for pt in live):
+        busy = [pt for pt in live if pt.running > 0 and not pt.blocked]
+        if busy:
             accept_all(0.005)
-            continue
-        if any(pt.running and not getattr(pt, "blocked", False) for pt in live):
-            accept_all(0.005)
-            if time.time() - t_last > BLOCKED_S and any(pt.conn is not None for pt in live):
-                # the released party is blocked on a lock that a parked party holds: it stays
-                # runnable-in-waiting and the controller moves on to the parked ones
-                for pt in live:
-                    if pt.running:
+            now = time.time()
+            if any(pt.parked for pt in live):
+                for pt in busy:
+                    if now - max(pt.t_news, t_last) > BLOCKED_S:
+                        # fallback: waiting for something the controller cannot see
                         pt.blocked = True
                         schedule.append([pt.label, "<blocked>"])
+            if now - t_last > STALL_S:
+                stalled = True
+                break
+            continue
+        allreq = [(pt, c, r, at) for pt in sorted(live, key=lambda p: p.label) for (c, r, at) in pt.parked]
+        if not allreq:
+            accept_all(0.005)
             if time.time() - t_last > STALL_S:
                 stalled = True
                 break
             continue
-        parked = sorted((pt for pt in live if pt.conn is not None or pt.extra), key=lambda p: p.label)
+        # a request waiting for a lock becomes eligible again once somebody else has moved since it parked
+        parked = [x for x in allreq if point_name(x[2]) != "lock.wait" or x[3] < steps] or allreq
         if hold:
             # start constraints of the scenario: a party named in `hold` stays parked until another party has been
             # released at a point whose name ends with the given suffix (e.g. its proxied git command)
             def released(lbl, suffix):
-                return any(l == lbl and p.endswith(suffix) for l, p in schedule)
-            eligible = [pt for pt in parked if pt.label not in hold or released(*hold[pt.label])]
-            if eligible or not any(pt.running for pt in live):
-                parked = eligible or parked
-        if not parked:
-            accept_all(0.005)
-            if time.time() - t_last > STALL_S:
-                stalled = True
-                break
-            continue
+                return any(l == lbl and _strip(p).endswith(suffix) for l, p in schedule)
+            eligible = [x for x in parked if x[0].label not in hold or released(*hold[x[0].label])]
+            parked = eligible or parked
         # ---- decision
         pick = None
         while choices is not None and ci < len(choices) and choices[ci][1] == "<blocked>":
             ci += 1
         if choices is not None and ci < len(choices):
-            want = choices[ci][0]
-            pick = next((pt for pt in parked if pt.label == want), None)
+            want_l, want_p = choices[ci][0], _strip(choices[ci][1])
+            pick = next((x for x in allreq if x[0].label == want_l and point_name(x[2]) == want_p), None) or \
+                next((x for x in parked if x[0].label == want_l), None)
         ci += 1
         if pick is None:
             if choices is not None or rng is None:
                 pick = parked[0]
-            elif policy == "pct":
-                if steps in change_points:
-                    lo = min(prio.values()) - 1
-                    prio[max(parked, key=lambda p: prio[p.label]).label] = lo
-                pick = max(parked, key=lambda p: prio[p.label])
-            elif policy == "stale":
-                # prefer the party that has just read a journal (opens the read-modify-write window wider)
-                others = [pt for pt in parked if not ((pt.req or {}).get("name") or "").endswith(("after_read", "before_write"))]
-                pick = rng.choice(others) if others and rng.random() < 0.8 else rng.choice(parked)
             else:
-                pick = rng.choice(parked)
-        # which parked request of that process: the main one, or one of its helper threads
-        cands = ([("main", pick.conn, pick.req)] if pick.conn is not None else []) + \
-            [("thread", c, r) for c, r in pick.extra]
-        which = None
-        if choices is not None and ci - 1 < len(choices):
-            wantp = choices[ci - 1][1]
-            which = next((x for x in cands if point_name(x[2]) + ("@thread" if x[0] == "thread" else "") == wantp), None)
-        if which is None:
-            which = cands[0] if (choices is not None or rng is None or len(cands) == 1) else rng.choice(cands)
-        kind_, conn_, req_ = which
+                labels = sorted({x[0].label for x in parked})
+                if policy == "pct":
+                    if steps in change_points:
+                        lo = min(prio.values()) - 1
+                        prio[max(labels, key=lambda l: prio[l])] = lo
+                    lab = max(labels, key=lambda l: prio[l])
+                elif policy == "stale":
+                    # prefer the party that has just read a journal (opens the read-modify-write window wider)
+                    fresh = sorted({x[0].label for x in parked
+                                    if not (point_name(x[2]) or "").endswith(("after_read", "before_write"))})
+                    lab = rng.choice(fresh) if fresh and rng.random() < 0.8 else rng.choice(labels)
+                else:
+                    lab = rng.choice(labels)
+                cands = [x for x in parked if x[0].label == lab]
+                pick = cands[0] if len(cands) == 1 else rng.choice(cands)
+        pt_, conn_, req_, _at = pick
         verdict = "go"
         if faults:
-            verdict = faults.get((pick.label, point_name(req_), None), "go")
-        schedule.append([pick.label, point_name(req_) + ("@thread" if kind_ == "thread" else "")])
+            verdict = faults.get((pt_.label, point_name(req_), None), "go")
+        schedule.append([pt_.label, point_name(req_)])
         try:
             conn_.sendall((verdict + "\n").encode())
         except OSError:
             pass
         conn_.close()
-        if kind_ == "thread":
-            pick.extra = [(c, r) for c, r in pick.extra if c is not conn_]
-            pick.thread_inflight += 1
-            pick.t_thread = time.time()
-        else:
-            pick.conn, pick.req, pick.running = None, None, True
+        pt_.parked = [x for x in pt_.parked if x[0] is not conn_]
+        pt_.running += 1
+        pt_.t_news = time.time()
         steps += 1
         t_last = time.time()
+    if (stalled or steps >= STEP_CAP) and os.environ.get("GAISIM_SCHED_DEBUG"):
+        import sys
+        for pt in parties.values():
+            sys.stderr.write("SCHED-STALL %s exited=%s running=%s blocked=%s threads=%s joiners=%s parked=%s\n" % (
+                pt.label, pt.exited, pt.running, pt.blocked, pt.alive_threads, pt.joiners,
+                [point_name(r) for _c, r, _a in pt.parked]))
+        sys.stderr.write("SCHED-STALL steps=%d tail=%s\n" % (steps, schedule[-6:]))
     # cleanup
     for pt in parties.values():
         if not pt.exited:
@@ -239,9 +259,7 @@ def run_concurrent(world, commands, rng=None, choices=None, policy="random", fau
                 pass
             pt.code = pt.proc.returncode
             pt.exited = True
-        if pt.conn is not None:
-            pt.conn.close()
-        for c, _r in pt.extra:
+        for c, _r, _a in pt.parked:
             c.close()
     for s in list(pending_raw):
         s.close()
@@ -252,4 +270,6 @@ def run_concurrent(world, commands, rng=None, choices=None, policy="random", fau
         pass
     return {"results": {l: {"code": pt.code, "out": pt.out.decode("utf-8", "replace"), "err": pt.err.decode("utf-8", "replace")}
                         for l, pt in parties.items()},
-            "schedule": schedule, "steps": steps, "stalled": stalled or steps >= STEP_CAP}
+            "schedule": schedule, "steps": steps, "stalled": stalled or steps >= STEP_CAP,
+            "stats": dict(stats, lock_wait=sum(1 for _l, p in schedule if p == "lock.wait"),
+                          blocked_fallback=sum(1 for _l, p in schedule if p == "<blocked>"))}
